@@ -233,6 +233,23 @@ def jointSep (noOrphanRemoval : Bool) (ta tb : MeshTol) (fa fb : MeshFields) : B
   ((List.range ma.dim).all fun j => sepCol A B (column (ma.points ++ mb.points) j)) &&
   ((List.range ma.dim).all fun j => sepCol A B (column cands j))
 
+/-! ### `relabel` (noise-free part): the same data set stored in another order -/
+
+/-- `relabel ρ κ f`: the points of `f` stored in the order `ρ` (new index ↦ old index; every corner
+    index renamed through `ρ⁻¹`, point-field rows moved along), then the cells of every type `ct`
+    stored in the order `κ ct` (new cell ↦ old cell; cell-field rows moved along).  For `ρ` a
+    permutation of the point range and every `κ ct` a permutation of the cell range of `ct` this is
+    what `fcv/meshgen.py: relabel` produces without noise, extra orphans and block shuffling. -/
+def relabelF (ρ : List Nat) (κ : String → List Nat) (f : MeshFields) : MeshFields :=
+  applyCellMaps (applyPointMap f ρ) κ
+
+/-- the identity cell maps of `f` -/
+def idCellMaps (f : MeshFields) (ct : String) : List Nat := List.range (f.mesh.cellsOf ct).length
+
+/-- no coincident points: the coordinate key vectors of the (stripped) points are pairwise distinct -/
+def noCoincident (A : Nat) (m : Mesh) : Bool :=
+  (pointData A m).dups.isEmpty
+
 /-! ### what the comparison of a relabelled pair must answer -/
 
 def allPassed (o : Outcome) : Bool := o.domainEq && o.statuses.all fun s => s.2.2 == .passed
